@@ -343,9 +343,91 @@ func wide(c *simkit.Choices, x *simkit.Ctx) *simkit.Violation {
 	return nil
 }
 
+// hot: a long stream of similar records - exactly n distinct keys on a cache
+// of about n entries, each key hit hundreds or thousands of times - and then
+// keys the cache has never seen. Whatever is counted per entry (hits, age,
+// generations) crosses its thresholds here.
+func hot(c *simkit.Choices, x *simkit.Ctx) *simkit.Violation {
+	st := x.Stats
+	n := 1 + c.N(6)
+	capacity := []int{n, n, n + 1, n - 1, 2 * n}[c.N(5)]
+	if capacity < 0 {
+		capacity = 0
+	}
+	records := []int{130, 300, 1100, 4200}[c.N(4)]
+	if c.N(40) == 0 {
+		records = 66000
+	}
+	f := model.Formats[c.N(3)]
+	cd := common.ByName(f)
+	te := model.TypeByName("[]map[string]interface{}")
+	g := newKeyGen(c)
+	for len(g.alpha) < n {
+		g.alpha = append(g.alpha, fmt.Sprintf("field%d", len(g.alpha)))
+	}
+	keys := g.alpha[:n]
+	rec := func(extra ...string) model.Val {
+		o := model.Val{K: model.VObj}
+		for i, k := range append(append([]string{}, keys...), extra...) {
+			o.Keys = append(o.Keys, k)
+			o.A = append(o.A, model.Int(int64(i)))
+		}
+		return o
+	}
+	stream := model.Val{K: model.VArr}
+	for i := 0; i < records; i++ {
+		stream.A = append(stream.A, rec())
+	}
+	stream.A = append(stream.A, rec("never-seen-before"), rec("another-new-key", "never-seen-before"), rec())
+	sc := &Scenario{Capacity: capacity, Format: string(f), Target: te.Name, Scribble: true,
+		Note: fmt.Sprintf("one document: %d records with the same %d keys %q, then records with new keys (hex omitted)", records, n, keys)}
+	b := write(c, f, stream).Bytes
+	if f == model.JSON {
+		b = append(b, '\n')
+	}
+	docs := [][]byte{b, b}
+	sc.Docs = []string{"", ""}
+	sc.Cuts = [][]int{nil, nil}
+	for i, k := 0, c.N(4); i < k; i++ {
+		sc.Cuts[0] = append(sc.Cuts[0], c.N(len(b)+1))
+	}
+	sortInts(sc.Cuts[0])
+	simkit.SetCurrent(sc)
+	x.Alive()
+	st.Eval(1)
+	st.Distinct(simkit.NewDigest().Int(capacity).Int(n).Int(records).Str(string(f) + fmt.Sprint(keys)).Sum())
+	st.Probe("hot-keys-long-record-stream")
+	ref, refErrs, refPanic := run(sc, docs, te, cd, -1, x)
+	x.Alive()
+	if refPanic != nil {
+		return nil
+	}
+	got, gotErrs, gotPanic := run(sc, docs, te, cd, capacity, x)
+	x.Alive()
+	site := "capacity=hot"
+	if gotPanic != nil {
+		return &simkit.Violation{Kind: "panic", Site: site + gotPanic.Site,
+			Detail: fmt.Sprintf("with EnableKeyCache(%d), %d records of %d keys: %s\n%s", capacity, records, n, gotPanic.Value, gotPanic.Stack), Scenario: sc}
+	}
+	if len(ref) != len(got) || fmt.Sprint(refErrs) != fmt.Sprint(gotErrs) {
+		return &simkit.Violation{Kind: "value-differs", Site: site,
+			Detail: fmt.Sprintf("errors without cache %v, with EnableKeyCache(%d) %v", refErrs, capacity, gotErrs), Scenario: sc}
+	}
+	for i := range ref {
+		if !model.DeepEq(ref[i], got[i]) {
+			return &simkit.Violation{Kind: "value-differs", Site: site,
+				Detail: fmt.Sprintf("document %d (%d records of %d keys): the result with EnableKeyCache(%d) differs from the result without cache", i, records, n, capacity), Scenario: sc}
+		}
+	}
+	return nil
+}
+
 func (Engine) Run(c *simkit.Choices, x *simkit.Ctx) *simkit.Violation {
-	if c.N(100) == 0 {
+	if c.N(150) == 0 {
 		return wide(c, x)
+	}
+	if c.N(600) == 0 {
+		return hot(c, x)
 	}
 	st := x.Stats
 	f := model.Formats[c.N(3)]
